@@ -126,6 +126,13 @@ def main():
     res['notes'].setdefault('pgradd_file', pfile)
     mons = getattr(mod, 'monitor_evaluations', None)
     res['monitor_evaluations'] = mons() if mons else {}
+    from vmon.core import obs
+    if obs.WARNINGS_AS_ERRORS:
+        for k, v in obs.STATS.items():
+            res['counters'][k] = res['counters'].get(k, 0) + v
+    if not __debug__:
+        res['counters']['evaluations_in_an_optimised_interpreter'] = \
+            res['counters'].get('evaluations', 0)
     tmp = out + '.tmp'
     with open(tmp, 'w') as f:
         json.dump(res, f, default=repr)
